@@ -100,7 +100,7 @@ class Ctx:
         self.name, self.ic = case['name'], case['icut']
         self.crys, self.chem, self.sitelist, self.jn = catalog.network(self.name, self.ic)
         self.M = ps.PairModel(self.crys, self.chem, self.jn)
-        self.viol, self.seen = [], set()
+        self.seen, self.per = set(), {}
         self.ncmp = 0
         self.case = case
         self._reach, self._orb = {}, {}
@@ -114,7 +114,14 @@ class Ctx:
         key = '{}:c{}:{}:{}'.format(self.name, self.ic, sub, what)
         if (oracle, key) in self.seen: return
         self.seen.add((oracle, key))
-        self.viol.append({'oracle': oracle, 'key': key, 'detail': detail, 'case': self.case})
+        self.per.setdefault(oracle, []).append({'oracle': oracle, 'key': key, 'detail': detail, 'case': self.case})
+
+    @property
+    def viol(self):
+        """at most 4 signatures per oracle and case: the lexicographically smallest keys (hash-seed independent choice)"""
+        out = []
+        for o in sorted(self.per): out += sorted(self.per[o], key=lambda v: v['key'])[:4]
+        return out
 
     def build(self, N, o):
         return stars.StarSet(self.jn, self.crys, self.chem, N, originstates=bool(o))
